@@ -140,6 +140,35 @@ func runC18(rc *RunCtx) {
 		}
 		requester = lr.Auth.ClientToken
 	}
+	// ---- a forged "wrapping token": an ordinary single-policy token that
+	// planted wrapinfo / response entries in its own cubbyhole. The wrapping
+	// endpoints must refuse it - whether or not the request itself asks for a
+	// wrapped answer - or lookup would report a creation path the caller chose
+	// and unwrap / rewrap would hand out caller-chosen data as a wrapped secret
+	if tp.Pick(2) == 0 {
+		forged, _, err := h.CreateToken("", map[string]any{"policies": []string{"default"}, "no_default_policy": false})
+		if err == nil && forged != "" {
+			h.Do("forge", Req{Op: logical.UpdateOperation, Path: "cubbyhole/wrapinfo", Token: forged, Data: map[string]any{"creation_ttl": 3600, "creation_time": time.Now().UTC().Format(time.RFC3339Nano), "creation_path": "auth/approle/role/app/secret-id"}})
+			h.Do("forge", Req{Op: logical.UpdateOperation, Path: "cubbyhole/response", Token: forged, Data: map[string]any{"response": `{"data":{"secret_id":"chosen-by-the-caller"}}`}})
+			for _, ep := range []string{"lookup", "unwrap", "rewrap"} {
+				r := Req{Op: logical.UpdateOperation, Path: "sys/wrapping/" + ep, Token: other, Data: map[string]any{"token": forged}}
+				if tp.Pick(2) == 0 {
+					r.WrapTTL = time.Minute
+				}
+				resp, err := h.Do("forged", r)
+				if err == nil && resp != nil && !resp.IsError() && (len(resp.Data) > 0 || resp.WrapInfo != nil) {
+					s.Violate("C18", "non-wrapping-token-accepted", map[string]any{"endpoint": ep, "request_asks_for_wrapping": r.WrapTTL > 0},
+						"sys/wrapping/%s accepted an ordinary token (policies [default], forged cubbyhole entries) presented as a wrapping token (request wrap TTL %s): data %v wrap_info %v", ep, r.WrapTTL, resp.Data, resp.WrapInfo)
+					return
+				}
+			}
+			h.Do("forge", Req{Op: logical.UpdateOperation, Path: "auth/token/revoke", Token: h.Root, Data: map[string]any{"token": forged}})
+			s.SetControlled()
+			s.Drain(5*time.Second, time.Second)
+			s.PassThrough()
+			s.Probe("forged_wrapping_token_refused")
+		}
+	}
 	baseline := keysUnder(disk, "sys/token/", "logical/")
 
 	// ---- the wrapped request: a KV read, a list, or a login ----
